@@ -82,7 +82,7 @@ def generate(R, tier):
         elif r < 0.65:
             steps.append({"op": "read", "pick": R.randrange(1000)})
         elif r < 0.80:
-            steps.append({"op": "copy", "obj": R.randrange(live), "deep": R.random() < 0.6})
+            steps.append({"op": "copy", "obj": R.randrange(live) if R.random() < 0.6 else 0, "deep": R.random() < 0.6, "method": R.random() < 0.4})
             live += 1
         elif r < 0.90:
             steps.append({"op": "mutate", "obj": R.randrange(live), "how": R.randrange(1000)})
@@ -316,8 +316,15 @@ def execute(sc):
                 src = objs[i]
                 s0 = _snap(src)
                 C = "%s.%s" % (keys[i], "__deepcopy__" if st["deep"] else "__copy__")
+                use_method = st.get("method") and hasattr(src, "deepcopy" if st["deep"] else "copy")
+                if use_method:
+                    C = "%s.%s" % (keys[i], "deepcopy" if st["deep"] else "copy")
+                    fault("copy_through_method")
                 try:
-                    c = copy.deepcopy(src) if st["deep"] else copy.copy(src)
+                    if use_method:
+                        c = src.deepcopy() if st["deep"] else src.copy()
+                    else:
+                        c = copy.deepcopy(src) if st["deep"] else copy.copy(src)
                 except Exception as e:
                     V.append(viol("copy-equals-source", C, "raises:%s" % type(e).__name__, "step %d: %s" % (ix, e), step=ix))
                     break
@@ -334,6 +341,15 @@ def execute(sc):
                     sh = _shared(src, c)
                     if sh:
                         V.append(viol("deepcopy-shares-no-state", C, "field=%s" % sh[0], "step %d: deep copy shares memory with its source in %s" % (ix, sh), step=ix))
+                        break
+                    # ... nor with any other live object of the same class (e.g. an earlier copy)
+                    for j, other in enumerate(objs):
+                        if other is not src and type(other) is type(c):
+                            sh = _shared(other, c)
+                            if sh:
+                                V.append(viol("deepcopy-shares-no-state", C, "other-object|field=%s" % sh[0], "step %d: deep copy shares memory (%s) with another object (pool index %d)" % (ix, sh, j), step=ix))
+                                break
+                    if V:
                         break
                     sources[len(objs)] = (i, s0)
                 if i in mutated:
